@@ -412,6 +412,21 @@ func genFaults(r *rand.Rand, st *world.State, g string) []world.Fault {
 		if len(ids) > 0 {
 			n = ids[r.Intn(len(ids))]
 		}
+		if gs.Cfg.Fleet && r.Intn(2) == 0 {
+			switch r.Intn(5) {
+			case 0:
+				fs = append(fs, world.Fault{Op: "status", T: g})
+			case 1:
+				fs = append(fs, world.Fault{Op: "attach", T: []string{"#1", "#2"}[r.Intn(2)]})
+			case 2:
+				fs = append(fs, world.Fault{Op: "create_fleet", T: g})
+			case 3:
+				fs = append(fs, world.Fault{Op: "status", T: g}, world.Fault{Op: "terminate_instances", T: "#1"})
+			case 4:
+				fs = append(fs, world.Fault{Op: "create_fleet_none", T: g})
+			}
+			continue
+		}
 		switch r.Intn(10) {
 		case 9:
 			fs = append(fs, world.Fault{Op: "describe_instance", T: n})
